@@ -179,12 +179,17 @@ Definition wait (w : world) : outc * world :=
 Definition io (w : world) : outc * world :=
   if s_closed (sp w) || negb (s_fd_valid (sp w)) then (RaisePty 3, w) else (RNone, w).
 
-Inductive lop := OIsalive | OWait | OKill (sig : Z) | OTerminate (force : bool) | OClose (force : bool) | OEnv (e : envev) | OIo.
+(** dropping the last reference to the object: pexpect.spawn has no finaliser of its own; PtyProcess.__del__ calls its
+    close() (force=True) unless already closed, and swallows whatever that raises *)
+Definition drop (w : world) : outc * world := (RNone, snd (pty_close w true)).
+
+Inductive lop := OIsalive | OWait | OKill (sig : Z) | OTerminate (force : bool) | OClose (force : bool) | OEnv (e : envev) | OIo | ODrop.
 Definition lstep (w : world) (o : lop) : outc * world :=
   match o with
   | OIsalive => isalive w | OWait => wait w | OKill s => kill w s | OTerminate f => terminate w f | OClose f => close w f
   | OEnv e => (RNone, set_ch w (env1 (ch w) e))
   | OIo => io w
+  | ODrop => drop w
   end.
 
 Definition world0 (ih ii st : bool) : world :=
